@@ -244,7 +244,7 @@ func TestC10(t *testing.T) {
 		}
 	}
 	s.exec(t, "eq", c10Case{Op: "perm", Mode: int(eng.ModePlain), In: []string{"0", "1", "2", "3"}}, "perm/kat")
-	rapidCheck(t, "eq", tierN(2200, 120000), func(rt *rapid.T) {
+	rapidCheck(t, "eq", tierN(6000, 120000), func(rt *rapid.T) {
 		op := rapid.SampledFrom([]string{"perm", "hashnopad", "hashnopad", "hashornoop", "hashornoop", "twotoone", "tovec"}).Draw(rt, "op")
 		var in []*big.Int
 		switch op {
@@ -274,7 +274,7 @@ func TestC10(t *testing.T) {
 		}
 		s.exec(rt, "eq", c10Case{Op: op, Mode: int(genMode().Draw(rt, "mode")), In: strs(in)}, class)
 	})
-	rapidCheck(t, "inj", tierN(700, 50000), func(rt *rapid.T) {
+	rapidCheck(t, "inj", tierN(2000, 50000), func(rt *rapid.T) {
 		if rapid.Bool().Draw(rt, "chunks") {
 			h1 := genHashVal().Draw(rt, "h1")
 			h2 := genHashVal().Draw(rt, "h2")
